@@ -60,6 +60,15 @@ func Dir() string {
 	return "/verif"
 }
 
+// Out returns the directory evidence/ and replays/ are written under (VERIF_OUT,
+// default Dir()); validation runs against mutated trees write elsewhere.
+func Out() string {
+	if d := os.Getenv("VERIF_OUT"); d != "" {
+		return d
+	}
+	return Dir()
+}
+
 // Tree returns the dbft source tree under verification (DBFT_TREE, default /repo).
 func Tree() string {
 	if d := os.Getenv("DBFT_TREE"); d != "" {
@@ -236,7 +245,7 @@ func (r *Run) Violation(sig, what string, witness any) {
 		r.counters["violations_not_listed"]++
 		return
 	}
-	dir := filepath.Join(Dir(), "replays")
+	dir := filepath.Join(Out(), "replays")
 	_ = os.MkdirAll(dir, 0o755)
 	path := filepath.Join(dir, fmt.Sprintf("%s-%d-%d.json", r.Prop, r.Seed, len(r.violations)))
 	b, err := json.MarshalIndent(map[string]any{
@@ -313,7 +322,7 @@ func (r *Run) FinishNoExit() int {
 		"violations":  len(r.violations),
 	}
 	b, _ := json.MarshalIndent(evd, "", " ")
-	dir := filepath.Join(Dir(), "evidence")
+	dir := filepath.Join(Out(), "evidence")
 	_ = os.MkdirAll(dir, 0o755)
 	if err := os.WriteFile(filepath.Join(dir, r.Prop+".json"), append(b, '\n'), 0o644); err != nil {
 		fmt.Printf("INCONCLUSIVE property=%s reason=cannot write evidence: %v\n", r.Prop, err)
